@@ -153,3 +153,37 @@ void h_minmax(void)
   VC_REACH();
 }
 #endif
+
+#ifdef VC_TENSOR_JOB
+/* TensorPreprocess: block k of the output and entry k of each list come from MatrixPreprocess(orig->m[k], type, fresh
+ * empty vectors, trans->m[k]) - "tensor preprocessing equals matrix preprocessing applied block by block" */
+extern size_t vc_mp_calls, vc_mp_avg0[GMAX], vc_mp_sc0[GMAX];
+extern matrix *vc_mp_orig[GMAX], *vc_mp_trans[GMAX];
+extern int vc_mp_type[GMAX];
+#ifndef VC_ORD
+#define VC_ORD 2
+#endif
+void h_TensorPreprocess(void)
+{
+  tensor *o, *t;
+  dvectorlist *avgs, *scs;
+  NewTensor(&o, VC_ORD); NewTensor(&t, VC_ORD);
+  for(size_t k = 0; k < VC_ORD; k++) { NewTensorMatrix(o, k, VC_R, k + 1); NewTensorMatrix(t, k, VC_R, k + 1); }
+  initDVectorList(&avgs); initDVectorList(&scs);
+  int type = VC_IN_INT();
+  VC_ASSUME(type >= -1 && type <= 5);
+  TensorPreprocess(o, type, avgs, scs, t);
+  VC_CHECK("TensorPreprocess: one matrix preprocessing per block", vc_mp_calls == VC_ORD);
+  VC_CHECK("TensorPreprocess: one stored average vector and one stored scaling vector per block", avgs->size == VC_ORD && scs->size == VC_ORD);
+  for(size_t k = 0; k < VC_ORD; k++) {
+    VC_CHECK("TensorPreprocess: block k is preprocessed from input block k into output block k with the requested option",
+             vc_mp_orig[k] == o->m[k] && vc_mp_trans[k] == t->m[k] && vc_mp_type[k] == type);
+    VC_CHECK("TensorPreprocess: every block is fitted on its own (fresh, empty statistic vectors)", vc_mp_avg0[k] == 0 && vc_mp_sc0[k] == 0);
+    VC_CHECK("TensorPreprocess: list entry k has one value per column of block k", avgs->d[k]->size == k + 1 && scs->d[k]->size == k + 1);
+    for(size_t j = 0; j < k + 1; j++)
+      VC_CHECK("TensorPreprocess: list entry k holds the statistics of block k", avgs->d[k]->data[j] == 10.0 * (double)(k + 1) + (double)j &&
+               scs->d[k]->data[j] == 100.0 * (double)(k + 1) + (double)j);
+  }
+  VC_REACH();
+}
+#endif
